@@ -22,6 +22,10 @@ def extra_checks(prop, tier, seed):
         from pyvc import bounded
 
         return bounded.float_to_str_contract(prop, tier, seed)
+    if prop == "C06":
+        from pyvc import bounded
+
+        return bounded.spatial_contract(prop, tier, seed)
     if prop == "C04":
         from pyvc import bounded
 
